@@ -15,18 +15,22 @@ Three sources of order are modelled explicitly:
 
 Theorems (all cluster states; `UniqueObjs` = namespace/name identify an object, which the API server
 guarantees):
-* `sortIngs_spec`, `sortIngs_perm` — the processing order of the ingresses is a function of the set;
+* `sortIngs_spec`, `sortIngs_perm'` — the processing order of the ingresses is a function of the set;
 * `fullSync_perm` — the whole configuration (paths, hosts, certificates, backends and their servers,
   default backend) is the same for every order of the object lists;
-* `route_perm_partial` — routing is the same for every order of the lists AND every iteration order
-  of Go's maps whenever the Spec determines the answer (no tie between path types of equal length);
+* `route_perm` — the routing of the generated configuration (`Sync.routeS`: since repair 8cccd42
+  `rebuildMatchFiles` iterates the hostnames sorted) is the same for every order of the lists,
+  unconditionally;
+* `route_perm_partial` — for ANY two admissible iteration orders of Go's maps the answers agree
+  whenever the Spec determines the answer (no tie between path types of equal length);
 * `served_perm`, `annOf_perm` — certificates and the winner of an annotation conflict do not depend
   on any order.
 
-Full-strength statement that is FALSE for the code as it is (finding
-`order-dependent-tie-between-path-types`, witness `tie_depends_on_iteration`, replayed on the Go code:
-first line of `c06corpus`):
-  `∀ w π π' r, IterOK (fullSync w) π → IterOK (fullSync w) π' → route (fullSync w) π r = route (fullSync w) π' r`.
+Before repair 8cccd42 the iteration order was Go's map order and the unconditional statement
+  `∀ w π π' r, IterOK (fullSync w) π → IterOK (fullSync w) π' → route (fullSync w) π r = route (fullSync w) π' r`
+was FALSE: finding `order-dependent-tie-between-path-types`, kernel witness `tie_depends_on_iteration`
+(two admissible orders, two answers), replayed on the Go code before the repair (first line of
+`c06corpus`: 5 of 12 processes answered `d_api_8080`, 7 answered `d_app_8080`).
 -/
 namespace HapVerif.C06
 open HapVerif.Sync
@@ -53,6 +57,18 @@ theorem route_perm_partial {w w' : World} (p : PermOf w w') (u : UniqueObjs w) (
     route (fullSync w) π r = route (fullSync w') π' r := by
   rw [← fullSync_perm p u] at hπ' ⊢
   exact C03.route_iter_indep wf hπ hπ' rq det
+
+/-- **route_perm** (unconditional, code after 8cccd42): the routing of the generated configuration is
+a function of the cluster state alone -/
+theorem route_perm {w w' : World} (p : PermOf w w') (u : UniqueObjs w) (r : Req) :
+    routeS (fullSync w) r = routeS (fullSync w') r := by
+  rw [fullSync_perm p u]
+
+/-- and it is an answer the Spec allows (C03), whatever the order -/
+theorem route_perm_spec {w w' : World} (p : PermOf w w') (u : UniqueObjs w) (wf : C03.WFWorld w = true)
+    {r : Req} (rq : C04.WFReq r.host r.path = true) : routeS (fullSync w') r ∈ C03.specRoute w r := by
+  rw [← route_perm p u]
+  exact C03.routeS_spec wf rq
 
 /-- certificates do not depend on the order -/
 theorem served_perm {w w' : World} (p : PermOf w w') (u : UniqueObjs w) (sni : Str) :
@@ -93,8 +109,8 @@ def wTie : World :=
 def πbc : Iter := ⟨[s "b.local", s "c.local", s "a.local"], [], []⟩
 def πcb : Iter := ⟨[s "c.local", s "b.local", s "a.local"], [], []⟩
 
-/-- **the finding, on the model**: both iteration orders are admissible, the Spec allows both
-backends (a documented tie), and the two orders give different answers -/
+/-- **the finding repaired by 8cccd42, on the model**: both iteration orders are admissible, the Spec
+allows both backends (a documented tie), and the two orders give different answers -/
 theorem tie_depends_on_iteration :
     C03.WFWorld wTie = true ∧
     C03.specRoute wTie ⟨false, s "a.local", s "/a/x"⟩ = [s "d_app_8080", s "d_api_8080"] ∧
@@ -107,7 +123,10 @@ theorem tie_iters_admissible : C03.IterOK (fullSync wTie) πbc ∧ C03.IterOK (f
    ⟨C04.hostOrderOK_of_perm (by decide +kernel), C04.hostOrderOK_of_perm (by decide +kernel),
     C04.hostOrderOK_of_perm (by decide +kernel)⟩⟩
 
-/-- non-vacuity of `fullSync_perm` / `route_perm_partial`: the witness of C03 with its lists reversed -/
+/-- after the repair the answer on this cluster state is the one of the sorted order, every run -/
+theorem tie_fixed : routeS (fullSync wTie) ⟨false, s "a.local", s "/a/x"⟩ = s "d_app_8080" := by decide +kernel
+
+/-- non-vacuity of `fullSync_perm` / `route_perm`: the witness of C03 with its lists reversed -/
 example : fullSync C03.w0 = fullSync (permute C03.w0) :=
   fullSync_perm (permute_perm _)
     ⟨by intro a ha b hb; revert a b; decide +kernel, by decide +kernel, by decide +kernel, by decide +kernel⟩
@@ -130,6 +149,6 @@ example : annOf wAnn ⟨s "d", s "app", s "8080"⟩ (s "balance-algorithm") = so
 /-- regenerated from the Go source -/
 theorem facts_c06 :
     Facts.c06SortIngressTieBreak = ["i1.Namespace+\"/\"+i1.Name<i2.Namespace+\"/\"+i2.Name"] ∧
-    Facts.c06RawhostsRange = ["hm.rawhosts"] := by decide
+    Facts.c06RawhostsIteration = ["range-keys:hm.rawhosts", "sort.Strings(hostnames)", "range:hostnames"] := by decide
 
 end HapVerif.C06
